@@ -2,7 +2,7 @@
 
 PROP_MODULES = {
     'C03': ['contracts.builders', 'contracts.shared_grid', 'contracts.c03_grid'],
-    'C04': ['contracts.builders', 'contracts.shared_grid', 'contracts.c03_grid', 'contracts.c04_meta', 'contracts.c08_creator', 'contracts.c17_upstream', 'contracts.c01_georef'],
+    'C04': ['contracts.builders', 'contracts.shared_grid', 'contracts.c03_grid', 'contracts.c04_meta', 'contracts.c08_creator', 'contracts.c08_manager', 'contracts.c17_upstream', 'contracts.c01_georef'],
     'C02': ['contracts.builders', 'contracts.shared_grid', 'contracts.c03_grid', 'contracts.c04_meta', 'contracts.c16_limits', 'contracts.c02_addresses'],
     'C20': ['contracts.builders', 'contracts.shared_grid', 'contracts.c03_grid', 'contracts.c04_meta', 'contracts.c08_creator', 'contracts.c13_expiry', 'contracts.c16_limits', 'contracts.c20_conditional'],
     'C17': ['contracts.builders', 'contracts.shared_grid', 'contracts.c03_grid', 'contracts.c17_upstream'],
@@ -18,8 +18,8 @@ PROP_MODULES = {
     'C15': ['contracts.builders', 'contracts.c15_async'],
     'C14': ['contracts.builders', 'contracts.c14_merge'],
     'C16': ['contracts.builders', 'contracts.shared_grid', 'contracts.c03_grid', 'contracts.c04_meta', 'contracts.c16_limits'],
-    'C13': ['contracts.builders', 'contracts.shared_grid', 'contracts.c03_grid', 'contracts.c04_meta', 'contracts.c08_creator', 'contracts.c13_expiry'],
-    'C08': ['contracts.builders', 'contracts.shared_grid', 'contracts.c03_grid', 'contracts.c04_meta', 'contracts.c05_compact', 'contracts.c16_limits', 'contracts.c08_creator', 'contracts.c05_paths', 'contracts.c09_paths'],
+    'C13': ['contracts.builders', 'contracts.shared_grid', 'contracts.c03_grid', 'contracts.c04_meta', 'contracts.c08_creator', 'contracts.c08_manager', 'contracts.c13_expiry'],
+    'C08': ['contracts.builders', 'contracts.shared_grid', 'contracts.c03_grid', 'contracts.c04_meta', 'contracts.c05_compact', 'contracts.c16_limits', 'contracts.c08_creator', 'contracts.c08_manager', 'contracts.c05_paths', 'contracts.c09_paths'],
 }
 
 # semantics assumed by the encoding (DESIGN.md section 2.4), reported in every evidence file
